@@ -821,12 +821,14 @@ theorem simulation_result (c0 c c' : Ctx) (events : List (String × Int × List 
 
 /-- `register_observation` keeps observation names unique (a duplicate name is refused) -/
 theorem registerObservation_names_nodup (c c' : Ctx) (name phase : String) (kind : Kind) (add exc : List String)
-    (hnd : (c.obs.map (·.name)).Nodup) (h : registerObservation c name phase kind add exc = .ok c') :
+    (cb : Bool) (hnd : (c.obs.map (·.name)).Nodup) (h : registerObservation c name phase kind add exc cb = .ok c') :
     (c'.obs.map (·.name)).Nodup := by
   unfold registerObservation at h
   split at h
   · cases h
-  · rename_i hdup
+  split at h
+  · cases h
+  · rename_i _ hdup
     cases h
     simp only [List.map_append, List.map_cons, List.map_nil]
     rw [List.nodup_append]
@@ -942,5 +944,7 @@ example : stratify ⟨"g", ["a", "b"], ["c"], ["a", "b", "c"], none⟩ "c" = .ok
 example : resolve ["g", "xb"] ["h2", "g"] ["xb"] = ["g", "h2"] := by decide
 example : binLabel [0, 12, 24, 40] ["lo", "mid", "hi"] 12 = "mid" ∧ binLabel [0, 12, 24, 40] ["lo", "mid", "hi"] 40 = nanTok ∧
     binLabel [0, 12, 24, 40] ["lo", "mid", "hi"] 0 = "lo" := by decide
+
+example : registerObservation {} "o" "time_step" .adding [] [] false = .error .missingCallable := rfl
 
 end Viv.Props.C16
